@@ -303,6 +303,15 @@ class Sim:
         def serial_io(queue):
             sim = sim_ref["sim"]
             h = getattr(threading.current_thread(), "_verif_host", None)
+            if sim is not None and h is not None and getattr(sim, "before_tasks", None) is not None and not sim.in_nested:
+                # something else acts between the main loop's dispatch and the execution of the queued tasks
+                f, sim.before_tasks = sim.before_tasks, None
+                rec, sim.recording = sim.recording, False
+                try:
+                    f()
+                finally:
+                    sim.recording = rec
+                    w.config.config["base"]["hostname"] = sim.cur_host
             orig(queue)
             if sim is not None and h is not None:
                 h.iterations += 1
